@@ -415,7 +415,6 @@ pub fn jobs(prop: &str, tier: &str) -> Vec<Job> {
                 }
                 out.push(job(|| Box::new(HuffBuildMachine::<u32>::new(uniform_profile(140_000, 1))), Mode::Bfs(BfsCfg::new(1)), false));
                 out.push(job(|| Box::new(HuffBuildMachine::<u32>::new(mixed_profile(70_000))), Mode::Bfs(BfsCfg::new(1)), false));
-                out.push(job(|| Box::new(HuffMachine::<u32>::new(fib_profile(40), 1)), Mode::Bfs(BfsCfg::new(2)), false));
                 add8(empty.clone(), 3, 2, &mut out);
                 add16(uniform_profile(257, 1), 2, 1, &mut out);
                 add16(uniform_profile(300, 2), 2, 1, &mut out);
